@@ -138,6 +138,20 @@ func main() {
 		for _, c := range cfgs {
 			scs = append(scs, pipeline(c.n, c.b, c.d, !c.nofilter, !c.nohdr))
 		}
+		// second pass in switch mode: one context switch to ANY enabled thread costs 1
+		// and leaves the priority order alone (a different slice of the schedule space
+		// than persistent delays)
+		sw := []cfg{{n: 2, b: 3, d: 1}, {n: 3, b: 3, d: 1}, {n: 12, b: 3, d: 1}}
+		if !r.Quick() {
+			sw = []cfg{{n: 2, b: 3, d: 2}, {n: 3, b: 3, d: 2}, {n: 12, b: 3, d: 1}, {n: 2, b: 4, d: 2, nohdr: true}}
+		}
+		for _, c := range sw {
+			sc := pipeline(c.n, c.b, c.d, true, !c.nohdr)
+			sc.SwitchMode = true
+			sc.Name += " switch-mode"
+			sc.Family = sc.Name
+			scs = append(scs, sc)
+		}
 		e := &vexplore.Explorer{R: r, Scenarios: scs}
 		e.Run(budget)
 	})
